@@ -31,3 +31,10 @@ h('help-block-id', ['C04'], PA, "    pub fn block_id(&self, x: u32) -> u32 {\n  
 h('help-class-ids-start', ['C11'], CS, "    pub fn class_ids(&self) -> ClassIdIterator<'_> {\n        ClassIdIterator {\n            partition: self,\n            counter: 0,", "    pub fn class_ids(&self) -> ClassIdIterator<'_> {\n        ClassIdIterator {\n            partition: self,\n            counter: 1,", 'C11.H/class_ids')
 h('help-make-partition', ['C13'], AU, "        CharPartition::try_from_iter(self.transitions.iter().map(|x| x.0))", "        CharPartition::try_from_iter(self.transitions.iter().skip(1).map(|x| x.0))", 'C13.H/make_partition')
 h('help-state-class-of-char', ['C14'], AU, "    pub fn class_of_char(&self, x: u32) -> ClassId {\n        self.classes.class_of_char(x)", "    pub fn class_of_char(&self, x: u32) -> ClassId {\n        self.classes.class_of_char(x | 1)", 'C14.H/State::class_of_char')
+h('c16-find-rigid-position', ['C16'], RX, "                    p.set_match(j, k);\n                    i = k;", "                    p.set_match(j, k);\n                    i = j;", 'C16.R4/find_rigid_matches')
+h('c16-find-rigid-rev-position', ['C16'], RX, "                    p.set_match(j, k);\n                    i = j;", "                    p.set_match(j, k);\n                    i = k;", 'C16.R4/find_rigid_matches_rev')
+h('c16-flex-region-prev', ['C16'], RX, "            let prev = if i == 0 { 0 } else { p[i - 1].end_match };", "            let prev = if i == 0 { 0 } else { p[i - 1].start_match };", 'C16.R4/set_flexible_regions')
+h('c16-flex-skip-check', ['C16'], RX, "            if !p.is_rigid && !flexible_match(&u[p.start_match..p.end_match], &v[p.start..p.end]) {", "            if !p.is_rigid && p.start_match < p.end_match && !flexible_match(&u[p.start_match..p.end_match], &v[p.start..p.end]) {", 'C16.R4/match_flexible_patterns')
+h('c16-base-patterns-cut', ['C16'], RX, "                result.push(BasePattern::make(j, i, rigid_slice));\n                rigid_slice = rigid_i;\n                j = i;", "                result.push(BasePattern::make(j, i, rigid_slice));\n                rigid_slice = rigid_i;\n                j = i + 1;", 'C16.R4/base_patterns')
+h('c16-shift-start-only', ['C16'], RX, "        p.start -= delta;\n        p.end -= delta;", "        p.start -= delta;", 'C16.R4/shift_pattern_start')
+h('c16-empty-patterns', ['C16'], RX, "        // equivalent to matching with epsilon\n        u.is_empty()", "        // equivalent to matching with epsilon\n        u.len() <= 1", 'C16.R4/match_flexible_patterns')
